@@ -263,7 +263,9 @@ def _c16_payloads(ctx):
         cfg = sim.gen_config(rng, crop=crop, soil_type=soil, method=i % 6, strict=False)
         p = {"cfg": cfg}
         if i % 5 == 3:
-            p["prehistory"] = [-3, -2, 2, 4][(i // 5) % 4]      # the same input objects were used before over a window shifted by so many years
+            # the same input objects were used before: over a window shifted by so many years, over a shorter window with the same start,
+            # or over a window starting a year later
+            p["prehistory"] = [-3, "shorter", 2, "later_start", -2, "shorter", 4][(i // 5) % 7]
         pl.append(p)
     return pl
 
